@@ -271,7 +271,7 @@ func c12TreeGen(tier Tier) TreeGen {
 		RootKinds: []string{"AND", "OR", "LIST", "NOT"},
 		Leaf:      func(t *rapid.T) Val { return genPrimVal(t, true, false) },
 		Conds:     true, CondExprStack: true, CondExprCond: true,
-		Options: true, Wraps: true, NilLeaves: true, EmptyStacks: true, IndexOpts: true, Ambient: true,
+		Options: true, Wraps: true, NilLeaves: true, EmptyStacks: true, IndexOpts: true, Ambient: true, WideRuns: true,
 	}
 	if tier.Thorough {
 		g.MaxDepth, g.MaxWidth, g.Budget = 4, 5, 36
